@@ -97,6 +97,38 @@ def clause_b(ctx, P):
                    ("%s (%s) never removes anything from DnsCache.%s" % (f.short, why, m)))
 
 
+
+def is_for_us_rule(ctx, P, pre):
+    """a received record set is kept iff some PTR in it is for a browsed type: the flag handed to the cache
+    becomes false only under `!service_queriers.contains_key(..)`"""
+    # is_for_us origin in handle_response
+    h = P.one("Zeroconf::handle_response")
+    htr = tracer(P, h)
+    aou = calls_to(h, "DnsCache::add_or_update")
+    if aou:
+        b, t = aou[0]
+        a = t["args"][4]
+        l, pos = a["p"]["l"], endpos(h, b)
+        # follow copies to the named flag
+        for _ in range(6):
+            ds = h.reaching_defs(l, pos)
+            if len(ds) == 1 and ds[0][2] == "assign" and ds[0][3]["k"] == "use" and ds[0][3]["a"]["k"] in ("copy", "move") and not ds[0][3]["a"]["p"]["proj"]:
+                pos = (ds[0][0], ds[0][1])
+                l = ds[0][3]["a"]["p"]["l"]
+            else:
+                break
+        ok = h.locals[l].get("name") == "is_for_us"
+        ctx.ob(pre + ".is-for-us-passed", h.name, ok, h.loc(b), "add_or_update receives the handler's is_for_us flag")
+        # every `false` assignment is under !service_queriers.contains_key; membership tests exist for both maps; accept_unsolicited forces true
+        falses = [(bb, i) for bb, i, s in h.assigns() if not s["p"]["proj"] and s["p"]["l"] == l and s["r"]["k"] == "use" and s["r"]["a"].get("val") in (0, False)]
+        e_nq = guard_edges(P, h, lambda atom, outcome, bb: atom[0] == "call" and name_matches(strip_generics(atom[1]), "HashMap::contains_key") and outcome is False
+                           and expr_mentions_field(atom, "service_queriers", "Zeroconf"))
+        okf = bool(falses) and all(must_pass_edges(h, bb, e_nq) for (bb, i) in falses)
+        ctx.ob(pre + ".not-for-us-only-unbrowsed", h.name, okf, h.loc(), "is_for_us becomes false only for a PTR whose type is not being browsed")
+        return h, l
+    return None
+
+
 def clause_c(ctx, P):
     f = P.one("DnsCache::add_or_update")
     tr = tracer(P, f)
@@ -130,30 +162,9 @@ def clause_c(ctx, P):
     nones = [b for b, i, s in aggregates(f, "option::Option", "None") if s["p"]["l"] == 0]
     ok = any(must_pass_edges(f, b, e_not) for b in nones)
     ctx.ob("C20c.rejecting-return", f.name, ok, f.loc(), "add_or_update returns None for a record that is not for us and whose name is unknown")
-    # is_for_us origin in handle_response
-    h = P.one("Zeroconf::handle_response")
-    htr = tracer(P, h)
-    aou = calls_to(h, "DnsCache::add_or_update")
-    if aou:
-        b, t = aou[0]
-        a = t["args"][4]
-        l, pos = a["p"]["l"], endpos(h, b)
-        # follow copies to the named flag
-        for _ in range(6):
-            ds = h.reaching_defs(l, pos)
-            if len(ds) == 1 and ds[0][2] == "assign" and ds[0][3]["k"] == "use" and ds[0][3]["a"]["k"] in ("copy", "move") and not ds[0][3]["a"]["p"]["proj"]:
-                pos = (ds[0][0], ds[0][1])
-                l = ds[0][3]["a"]["p"]["l"]
-            else:
-                break
-        ok = h.locals[l].get("name") == "is_for_us"
-        ctx.ob("C20c.is-for-us-passed", h.name, ok, h.loc(b), "add_or_update receives the handler's is_for_us flag")
-        # every `false` assignment is under !service_queriers.contains_key; membership tests exist for both maps; accept_unsolicited forces true
-        falses = [(bb, i) for bb, i, s in h.assigns() if not s["p"]["proj"] and s["p"]["l"] == l and s["r"]["k"] == "use" and s["r"]["a"].get("val") in (0, False)]
-        e_nq = guard_edges(P, h, lambda atom, outcome, bb: atom[0] == "call" and name_matches(strip_generics(atom[1]), "HashMap::contains_key") and outcome is False
-                           and expr_mentions_field(atom, "service_queriers", "Zeroconf"))
-        okf = bool(falses) and all(must_pass_edges(h, bb, e_nq) for (bb, i) in falses)
-        ctx.ob("C20c.not-for-us-only-unbrowsed", h.name, okf, h.loc(), "is_for_us becomes false only for a PTR whose type is not being browsed")
+    r = is_for_us_rule(ctx, P, "C20c")
+    if r is not None:
+        h, l = r
         mem = {fld for fld in ("service_queriers", "hostname_resolvers") for bb, tt in h.calls()
                if name_matches(cname(tt), "HashMap::contains_key") and recv_mentions(P, h, bb, tt, fld, "Zeroconf")}
         ctx.ob("C20c.membership-tests", h.name, mem == {"service_queriers", "hostname_resolvers"}, h.loc(), "is_for_us consults both search maps (%s)" % sorted(mem))
